@@ -10,5 +10,6 @@ for d in seeded/*/; do
   git -C /repo checkout -- .
   if [ $rc -eq 1 ]; then echo "$n: caught by $prop quick ($(echo "$out" | grep -c 'violated:') signatures)"; else echo "$n: NOT caught (exit $rc)"; fail=1; fi
 done
-./check C01 quick >/dev/null 2>&1   # rebuild against the unchanged tree
+# evidence of the unchanged tree again
+for p in C01 C02 C03 C04 C05 C06 C07 C08 C09 C10 C11 C12 C13 C14 C15 C16 C17 C18 C19 C20; do ./check $p quick >/dev/null 2>&1; done
 exit $fail
